@@ -75,7 +75,7 @@ def checkSub (cap : Nat) (toks : List String) : String :=
   | some tr =>
     let r := Conf.runTrace csys 2000 { st := init cap, rcv := [] } tr
     match r.rejectedAt with
-    | some i => s!"reject@{i}"
+    | some i => if r.exhausted then "ok" else s!"reject@{i}"
     | none => "ok"
 
 def statsSub (cap : Nat) (toks : List String) : Nat × Nat :=
